@@ -74,6 +74,96 @@ def parse_body(body):
     return upd
 
 
+def lean_str(x):
+    return '"' + x.replace('\\', '\\\\').replace('"', '\\"').replace('\n', '\\n') + '"'
+
+
+def gen_lexicon(tree):
+    """the `re.Scanner([...])` table of `_tokenize`: (pattern expression as written, token kind, payload expression) per rule, in order"""
+    fn = [n for n in tree.body if isinstance(n, ast.FunctionDef) and n.name == '_tokenize'][0]
+    calls = [n for n in ast.walk(fn) if isinstance(n, ast.Call) and ast.unparse(n.func) == 're.Scanner']
+    if len(calls) != 1 or len(calls[0].args) != 1 or not isinstance(calls[0].args[0], ast.List):
+        raise Refuse("re.Scanner([...]) not found")
+    rows = []
+    for el in calls[0].args[0].elts:
+        if not (isinstance(el, ast.Tuple) and len(el.elts) == 2 and isinstance(el.elts[1], ast.Lambda)):
+            raise Refuse("scanner rule is not (pattern, lambda)")
+        pat, lam = el.elts
+        if [a.arg for a in lam.args.args] != ['s', 't'] or not (isinstance(lam.body, ast.Tuple) and len(lam.body.elts) == 3):
+            raise Refuse("scanner action is not `lambda s, t: (kind, s.match, payload)`")
+        kind, m, payload = lam.body.elts
+        if not (isinstance(kind, ast.Constant) and isinstance(kind.value, str) and ast.unparse(m) == 's.match'):
+            raise Refuse("scanner action")
+        rows.append((ast.unparse(pat), kind.value, ast.unparse(payload)))
+    ufp = [n for n in tree.body if isinstance(n, ast.Assign) and ast.unparse(n.targets[0]) == '_unsigned_float_pattern']
+    if len(ufp) != 1 or not (isinstance(ufp[0].value, ast.Constant) and isinstance(ufp[0].value.value, str)):
+        raise Refuse("_unsigned_float_pattern")
+    # the map the blade rule looks names up in, the scan call and the closing `end` token
+    src = [ast.unparse(x) for x in fn.body]
+    want = ["blade_name_index_map = {name: index for index, name in enumerate(layout.names)}", None,
+            "tokens, rest = tokenizer.scan(mv_string)", "assert not rest",
+            "return tokens + [('end', re.compile('$').match(mv_string, len(mv_string)), None)]"]
+    if len(src) != len(want) or any(w is not None and w != g for w, g in zip(want, src)):
+        raise Refuse("_tokenize is not: name map; scanner; scan; assert; tokens + end")
+    d = ("def lexicon : List (String × String × String) :=\n  [" + ",\n   ".join(f"({lean_str(a)}, {lean_str(b)}, {lean_str(c)})" for a, b, c in rows) + "]\n\n"
+         f"def unsignedFloatPattern : String := {lean_str(ufp[0].value.value)}\n\n")
+    t = ("/-- the lexicon of `_tokenize` (rules, their order, token kinds, payloads) and the number pattern as the source has them now -/\n"
+         "theorem parser_lexicon_eq : GenParse.lexicon = Text.lexicon ∧ GenParse.unsignedFloatPattern = Text.unsignedFloatPattern := by decide\n")
+    return d, t
+
+
+def gen_line_offset(tree):
+    """`_match_line_offset`: `pos = m.span()[0]; lines = m.string.split('\\n'); for line_i, line in enumerate(lines, 1): new_pos = E1; if C: return R; pos = new_pos; assert False`"""
+    fn = [n for n in tree.body if isinstance(n, ast.FunctionDef) and n.name == '_match_line_offset'][0]
+    body = [s for s in fn.body if not (isinstance(s, ast.Expr) and isinstance(s.value, ast.Constant))]
+    if len(body) != 4 or ast.unparse(body[0]) != 'pos = m.span()[0]' or ast.unparse(body[1]) != "lines = m.string.split('\\n')" \
+            or ast.unparse(body[3]) != 'assert False':
+        raise Refuse("_match_line_offset frame")
+    loop = body[2]
+    if not (isinstance(loop, ast.For) and ast.unparse(loop.target) == '(line_i, line)' and isinstance(loop.iter, ast.Call)
+            and ast.unparse(loop.iter.func) == 'enumerate' and ast.unparse(loop.iter.args[0]) == 'lines' and len(loop.iter.args) == 2
+            and isinstance(loop.iter.args[1], ast.Constant) and len(loop.body) == 3):
+        raise Refuse("loop header / body length")
+    start = loop.iter.args[1].value
+    a1, cond, a2 = loop.body
+    if not (isinstance(a1, ast.Assign) and ast.unparse(a1.targets[0]) == 'new_pos' and isinstance(cond, ast.If) and not cond.orelse
+            and len(cond.body) == 1 and isinstance(cond.body[0], ast.Return) and ast.unparse(a2) == 'pos = new_pos'):
+        raise Refuse("loop body is not `new_pos = …; if …: return …; pos = new_pos`")
+
+    def ex(e):
+        if isinstance(e, ast.Name) and e.id in ('pos', 'new_pos', 'line_i'):
+            return {'pos': 'pos', 'new_pos': 'newPos', 'line_i': 'lineI'}[e.id]
+        if isinstance(e, ast.Constant) and isinstance(e.value, int):
+            return f"({e.value} : Int)"
+        if isinstance(e, ast.Call) and ast.unparse(e) == 'len(line)':
+            return "(len : Int)"
+        if isinstance(e, ast.BinOp) and isinstance(e.op, (ast.Add, ast.Sub)):
+            return f"({ex(e.left)} {'+' if isinstance(e.op, ast.Add) else '-'} {ex(e.right)})"
+        raise Refuse(f"expression {ast.unparse(e)}")
+    t = cond.test
+    if not (isinstance(t, ast.Compare) and len(t.ops) == 1 and isinstance(t.ops[0], (ast.Lt, ast.LtE))):
+        raise Refuse("loop test")
+    ret = cond.body[0].value
+    if not (isinstance(ret, ast.Tuple) and len(ret.elts) == 3 and ast.unparse(ret.elts[0]) == 'line_i' and ast.unparse(ret.elts[2]) == 'line'):
+        raise Refuse("return value is not (line_i, column, line)")
+    d = ("def lineOffset (lineI : Nat) (pos : Int) : List Nat → Option (Nat × Int)\n  | [] => none\n  | len :: rest =>\n"
+         f"    let newPos : Int := {ex(a1.value)}\n"
+         f"    if {ex(t.left)} {'<' if isinstance(t.ops[0], ast.Lt) else '≤'} {ex(t.comparators[0])} then some (lineI, {ex(ret.elts[1])}) else lineOffset (lineI + 1) newPos rest\n\n"
+         f"def lineOffsetStart : Nat := {start}\n\n")
+    np_e = ex(a1.value)
+    ret_e = ex(ret.elts[1]).replace('newPos', np_e)
+    plain = ("simp only [GenParse.lineOffset, Text.lineOffset, ih]; first | done | rfl | (split <;> split <;> first | rfl | omega | (exfalso; omega))")
+    th = ("/-- `_match_line_offset` as the source has it now is the loop `Text.lineOffset_spec` (C19.error_line_and_column) is about, started at line 1 -/\n"
+          "theorem parser_line_offset_eq (i : Nat) (pos : Int) (ls : List Nat) : GenParse.lineOffset i pos ls = Text.lineOffset i pos ls ∧ GenParse.lineOffsetStart = 1 := by\n"
+          "  refine ⟨?_, rfl⟩\n  induction ls generalizing i pos with\n  | nil => rfl\n  | cons len t ih =>\n"
+          f"    first\n    | ({plain})\n"
+          f"    | (have hnp : {np_e} = pos - (len : Int) - 1 := by omega\n"
+          f"       have hret : {ret_e} = pos + 1 := by omega\n"
+          "       simp only [GenParse.lineOffset, Text.lineOffset, hnp, hret, ih]\n"
+          "       first | done | rfl | (split <;> split <;> first | rfl | omega | (exfalso; omega)))\n")
+    return d, th
+
+
 def main():
     repo = Path(sys.argv[sys.argv.index('--repo') + 1]) if '--repo' in sys.argv else Path('/repo')
     out = ["import Model.Text\n\n/-! GENERATED from the current source by translate/parser2lean.py — do not edit -/\n"
@@ -141,12 +231,24 @@ def main():
         status['parser_step'] = dict(status='refused', reason=str(r))
     except Exception as r:
         status['parser_step'] = dict(status='refused', reason=repr(r)[:200])
+    for nm, g in (('parser_lexicon', gen_lexicon), ('parser_line_offset', gen_line_offset)):
+        try:
+            tree2 = ast.parse((repo / 'clifford' / '_parser.py').read_text())
+            d_, t_ = g(tree2)
+            out.append(d_)
+            thms.append((nm, t_))
+            status[nm] = dict(status='ok')
+        except Refuse as r:
+            status[nm] = dict(status='refused', reason=str(r))
+        except Exception as r:
+            status[nm] = dict(status='refused', reason=repr(r)[:200])
     out.append("end GenParse\n\n")
     names = {}
     for name, t in thms:
         out.append(t + "\n")
-        names[name] = t.split()[1]
-        out.append(f"#print axioms {t.split()[1]}\n")
+        tn = [l.split()[1] for l in t.splitlines() if l.startswith('theorem ')][-1]
+        names[name] = tn
+        out.append(f"#print axioms {tn}\n")
     if '--status' in sys.argv:
         sys.stderr.write(json.dumps(dict(status=status, theorems=names)))
     sys.stdout.write("".join(out))
